@@ -1,4 +1,142 @@
-import Physt.Theorems.C01
+import Physt.Proofs.Ops
+import Mathlib.Algebra.Order.Ring.Rat
+import Mathlib.Tactic.Linarith
+import Physt.Model.HistND
+/-!
+# C13 — content dtype is consistent and never loses information
+
+In the model a histogram has *one* dtype field that stands for the declared dtype and the element
+type of `frequencies` and `errors2` alike; that the implementation keeps the three equal is
+checked on every step of every generated history (the correspondence's `_freq_dtype` /
+`_err2_dtype` facts).  The theorems are about the rules by which that dtype moves.  The two 7×7
+tables are finite: `decide` over all pairs *is* the proof.
+-/
 namespace Physt
-theorem C13_placeholder : True := trivial
+open DType
+
+/-- promotion is commutative, idempotent and associative on the seven dtypes -/
+theorem C13_promote_algebra :
+    (∀ a ∈ DType.all, ∀ b ∈ DType.all, promote a b = promote b a) ∧
+    (∀ a ∈ DType.all, promote a a = a) ∧
+    (∀ a ∈ DType.all, ∀ b ∈ DType.all, ∀ c ∈ DType.all, promote (promote a b) c = promote a (promote b c)) := by
+  decide
+
+theorem DType.mem_all (d : DType) : d ∈ DType.all := by cases d <;> simp [DType.all]
+
+/-- **Implicit conversions are lossless**: both operands of a promotion can be cast safely to the
+    result (numpy `can_cast`, "safe"), so no value is truncated or wrapped by an implicit change. -/
+theorem C13_lossless (a b : DType) : canCast a (promote a b) = true ∧ canCast b (promote a b) = true := by
+  cases a <;> cases b <;> decide
+
+/-- safe castability is reflexive and transitive; a float never casts safely to an integer -/
+theorem C13_cancast (a b c : DType) :
+    canCast a a = true ∧ (canCast a b = true → canCast b c = true → canCast a c = true) ∧
+    (a.isInt = false → b.isInt = true → canCast a b = false) := by
+  cases a <;> cases b <;> cases c <;> decide
+
+/-- **Unweighted counting stays integral**: `fill` with the default (python int) weight and
+    `fill_n` without weights keep an integer histogram in an integer type. -/
+theorem C13_counting (d : DType) (h : d.isInt = true) :
+    (promote d (H1.NumKind.pyInt).dtype).isInt = true := by
+  cases d <;> simp_all [H1.NumKind.dtype, promote, isInt, rank]
+
+/-- **Float weights, float factors, division and normalisation promote to float**, never truncate. -/
+theorem C13_float_promotes (d f : DType) (hf : f.isInt = false) : (promote d f).isInt = false := by
+  cases d <;> cases f <;> simp_all [promote, promote.promoteIF, isInt, rank]
+
+theorem adapt_dtype (fo : FloatOps) (fuel : Nat) (x : H1) (vs : List Rat) (single : Bool) :
+    (x.adapt fo fuel vs single).dtype = x.dtype := by
+  unfold H1.adapt
+  cases x.binning with
+  | static b i => rfl
+  | fixed g => by_cases hg : g.adaptive = true <;> simp [hg]
+
+theorem C13_fill_dtype (fo : FloatOps) (fuel : Nat) (h : H1) (v : Rat) (w : Rat) (k : H1.NumKind) :
+    (h.fill fo fuel (some v) w k).1.dtype = promote h.dtype k.dtype := by
+  unfold H1.fill
+  simp only
+  have hd : ((h.coerce k.dtype).adapt fo fuel [v] true).dtype = promote h.dtype k.dtype := by
+    rw [adapt_dtype]; rfl
+  generalize (h.coerce k.dtype).adapt fo fuel [v] true = h2 at hd
+  cases H1.findBin fo h2 v <;> simp only <;> (try split) <;> simp [hd]
+
+theorem C13_idiv_float (h r : H1) (c : Rat) (hr : h.idiv c = .ok r) : r.dtype.isInt = false := by
+  rw [(idiv_ok h r c hr).2.1]
+  exact C13_float_promotes _ _ rfl
+
+/-- **Histogram ⊕ histogram uses numpy promotion** (same bins): the sum has the promoted dtype. -/
+theorem C13_iadd_dtype (fo : FloatOps) (h o r : H1) (hs : h.sameBins fo o = true) (hr : h.iadd fo o = .ok r) :
+    r.dtype = promote h.dtype o.dtype :=
+  (iadd_same_ok fo h o r hs hr).1
+
+/-- subtraction, too, ends in the promoted dtype -/
+theorem C13_isub_dtype (fo : FloatOps) (h o r : H1) (hr : h.isub fo o = .ok r) :
+    r.dtype = promote h.dtype o.dtype :=
+  (isub_ok fo h o r hr).1
+
+/-- a scalar factor promotes by the factor's numpy dtype (python int -> int64, python float -> float64) -/
+theorem C13_imul_dtype (h r : H1) (c : Rat) (k : H1.NumKind) (hr : h.imul c k = .ok r) :
+    r.dtype = promote h.dtype k.dtype :=
+  (imul_ok h r c k hr).1
+
+/-- **Explicit change of dtype**: accepted exactly when the decision `setDTypeOk` holds — a safe
+    cast, or every content and squared error integral (integer target from a float type) and
+    within the target's range; when accepted only the dtype changes, when refused there is no new
+    state at all (validation comes before conversion). -/
+theorem C13_set (h : H1) (d : DType) :
+    (H1.setDTypeOk h d = true → h.setDType d = .ok { h with dtype := d }) ∧
+    (H1.setDTypeOk h d = false → ∃ e, h.setDType d = .error e) := by
+  unfold H1.setDType
+  constructor
+  · intro hok; simp [hok, pure, Except.pure]
+  · intro hno; simp [hno, throw, throwThe, MonadExceptOf.throw]
+
+/-- a float histogram holding a non-integral content or squared error cannot become integral -/
+theorem C13_set_refuse_nonintegral (h : H1) (d : DType) (hd : d.isInt = true) (hh : h.dtype.isInt = false)
+    (x : Rat) (hx : x ∈ h.freq ++ h.err2) (hnon : H1.isIntegral x = false) :
+    H1.setDTypeOk h d = false := by
+  have hne : (d == h.dtype) = false := by
+    cases hdd : (d == h.dtype)
+    · rfl
+    · have : d = h.dtype := by simpa using hdd
+      rw [this] at hd; rw [hd] at hh; cases hh
+  have hcc : h.dtype.canCast d = false := (C13_cancast h.dtype d d).2.2 hh hd
+  have hall : (h.freq ++ h.err2).all H1.isIntegral = false := by
+    cases hq : (h.freq ++ h.err2).all H1.isIntegral
+    · rfl
+    · rw [List.all_eq_true] at hq
+      have := hq x hx
+      rw [hnon] at this; cases this
+  simp [H1.setDTypeOk, hne, hcc, hd, hh, hall]
+
+/-- a value outside the target's range refuses the change (narrower integer or float type) -/
+theorem C13_set_refuse_range (h : H1) (lo hi : Int) (d : DType) (hr : d.intRange = some (lo, hi))
+    (hcast : h.dtype.canCast d = false) (hne : (d == h.dtype) = false)
+    (x : Rat) (hx : x ∈ h.freq ++ h.err2) (hout : (hi : Rat) < x ∨ x < (lo : Rat)) :
+    H1.setDTypeOk h d = false := by
+  have : H1.fitsRange (h.freq ++ h.err2) d = false := by
+    unfold H1.fitsRange
+    rw [hr]
+    simp only
+    cases hq : (h.freq ++ h.err2).all fun x => decide ((lo : Rat) ≤ x) && decide (x ≤ (hi : Rat))
+    · rfl
+    · rw [List.all_eq_true] at hq
+      have := hq x hx
+      simp only [Bool.and_eq_true, decide_eq_true_eq] at this
+      rcases hout with h1 | h1 <;> linarith [this.1, this.2]
+  simp [H1.setDTypeOk, hne, hcast, this]
+
+/-- requesting an integer histogram with float weights is refused -/
+theorem C13_refuse_int_float (fo : FloatOps) (b : Binning) (vs : List (Option Rat)) (ws : List Rat)
+    (wk dt : DType) (keep dropna : Bool) (hwk : wk.isInt = false) (hdt : dt.isInt = true) :
+    ∃ e, H1.construct fo b vs (some ws) wk (some dt) keep dropna = .error e := by
+  unfold H1.construct
+  simp only [bind, Except.bind, pure, Except.pure, Option.isSome_some, if_true, Option.getD_some, hdt, hwk,
+    Bool.not_false, Bool.and_self]
+  repeat (split <;> try exact ⟨_, rfl⟩)
+
+/-! Non-vacuity -/
+example : promote .i16 .f16 = .f32 ∧ promote .i64 .f32 = .f64 ∧ canCast .i64 .f64 = true ∧ canCast .i16 .f16 = false := by
+  decide
+
 end Physt
